@@ -518,6 +518,191 @@ theorem C05_remove_states_preserves (M : Machine) (keep : Array Bool) (hC : M.cl
   dispatch_sim (removeStates_renOK M keep) (closedUnder_sound M keep hC) o fuel s x adv ((goodB_iff M keep s).mp hs)
 
 
+/-! ### budgets: each machine's own bound on non-consuming moves -/
+
+/-- no path of the tree ends in the move budget running out -/
+def NoSpin : CTree → Prop
+  | .emit _ k => NoSpin k
+  | .ask _ a b => NoSpin a ∧ NoSpin b
+  | .leaf (.ret c _ _) => c ≠ "SPIN"
+  | .leaf _ => True
+
+/-- `T₁` is `T₀` unless `T₀` ran out of budget somewhere -/
+def Mono (T₁ T₀ : CTree) : Prop := NoSpin T₀ → T₁ = T₀
+
+theorem Mono.refl (T : CTree) : Mono T T := fun _ => rfl
+theorem Mono.emit {T₁ T₀ : CTree} (e : AEv) (h : Mono T₁ T₀) : Mono (.emit e T₁) (.emit e T₀) := by
+  intro hn; simp only [NoSpin] at hn; rw [h hn]
+theorem Mono.ask {A₁ A₀ B₁ B₀ : CTree} (q : Quest) (h1 : Mono A₁ A₀) (h2 : Mono B₁ B₀) :
+    Mono (.ask q A₁ B₁) (.ask q A₀ B₀) := by
+  intro hn; simp only [NoSpin] at hn; rw [h1 hn.1, h2 hn.2]
+
+mutual
+  theorem Act.tree_mono (o : SemOpts) (x adv advBase : Nat) (re₀ re₁ : Int → Nat → CTree) (oc₀ oc₁ : Int → CTree)
+      (hre : ∀ h n, Mono (re₁ h n) (re₀ h n)) (hoc : ∀ h, Mono (oc₁ h) (oc₀ h)) :
+      ∀ (a : Act) (st : Int) (kN₀ kS₀ kN₁ kS₁ : Int → CTree),
+        (∀ s, Mono (kN₁ s) (kN₀ s)) → (∀ s, Mono (kS₁ s) (kS₀ s)) →
+        Mono (a.tree ⟨o, x, adv, advBase, re₁, oc₁⟩ st kN₁ kS₁) (a.tree ⟨o, x, adv, advBase, re₀, oc₀⟩ st kN₀ kS₀)
+    | .finish none, st, _, _, _, _, _, _ => by simp only [Act.tree]; exact Mono.refl _
+    | .finish (some c), st, _, _, _, _, _, _ => by simp only [Act.tree]; exact Mono.refl _
+    | .yield c, st, _, _, _, _, _, _ => by simp only [Act.tree]; exact Mono.refl _
+    | .hook n, st, _, _, _, _, hN, _ => by simp only [Act.tree]; exact Mono.emit _ (hN st)
+    | .append oos out, st, _, _, _, _, hN, _ => by
+        simp only [Act.tree]; exact Mono.ask _ (hre oos _) (Mono.emit _ (hN st))
+    | .appendC oos out each e, st, _, _, _, _, hN, _ => by
+        simp only [Act.tree]
+        refine Mono.ask _ ?_ (Mono.emit _ (hN st))
+        split
+        · exact hre oos _
+        · exact hoc oos
+    | .set out e, st, _, _, _, _, hN, _ => by
+        simp only [Act.tree]
+        split
+        · exact hN st
+        · exact Mono.emit _ (hN st)
+    | .setStr out bs, st, _, _, _, _, hN, _ => by
+        simp only [Act.tree]
+        split
+        · exact hN st
+        · exact Mono.emit _ (hN st)
+    | .delete out, st, _, _, _, _, hN, _ => by
+        simp only [Act.tree]
+        split
+        · exact hN st
+        · exact Mono.emit _ (hN st)
+    | .brk e after, st, _, kS₀, _, kS₁, _, hS => by
+        simp only [Act.tree]
+        exact Acts.tree_mono o x adv advBase re₀ re₁ oc₀ oc₁ hre hoc after st _ kS₀ _ kS₁ (fun _ => hS e) hS
+    | .cond bs, st, kN₀, kS₀, kN₁, kS₁, hN, hS => by
+        simp only [Act.tree]
+        exact Branches.tree_mono o x adv advBase re₀ re₁ oc₀ oc₁ hre hoc bs st kN₀ kS₀ kN₁ kS₁ hN hS
+  theorem Acts.tree_mono (o : SemOpts) (x adv advBase : Nat) (re₀ re₁ : Int → Nat → CTree) (oc₀ oc₁ : Int → CTree)
+      (hre : ∀ h n, Mono (re₁ h n) (re₀ h n)) (hoc : ∀ h, Mono (oc₁ h) (oc₀ h)) :
+      ∀ (a : Acts) (st : Int) (kN₀ kS₀ kN₁ kS₁ : Int → CTree),
+        (∀ s, Mono (kN₁ s) (kN₀ s)) → (∀ s, Mono (kS₁ s) (kS₀ s)) →
+        Mono (a.tree ⟨o, x, adv, advBase, re₁, oc₁⟩ st kN₁ kS₁) (a.tree ⟨o, x, adv, advBase, re₀, oc₀⟩ st kN₀ kS₀)
+    | .nil, st, _, _, _, _, hN, _ => by simp only [Acts.tree]; exact hN st
+    | .cons a r, st, kN₀, kS₀, kN₁, kS₁, hN, hS => by
+        simp only [Acts.tree]
+        exact Act.tree_mono o x adv advBase re₀ re₁ oc₀ oc₁ hre hoc a st _ kS₀ _ kS₁
+          (fun s => Acts.tree_mono o x adv advBase re₀ re₁ oc₀ oc₁ hre hoc r s kN₀ kS₀ kN₁ kS₁ hN hS) hS
+  theorem Branches.tree_mono (o : SemOpts) (x adv advBase : Nat) (re₀ re₁ : Int → Nat → CTree) (oc₀ oc₁ : Int → CTree)
+      (hre : ∀ h n, Mono (re₁ h n) (re₀ h n)) (hoc : ∀ h, Mono (oc₁ h) (oc₀ h)) :
+      ∀ (a : Branches) (st : Int) (kN₀ kS₀ kN₁ kS₁ : Int → CTree),
+        (∀ s, Mono (kN₁ s) (kN₀ s)) → (∀ s, Mono (kS₁ s) (kS₀ s)) →
+        Mono (a.tree ⟨o, x, adv, advBase, re₁, oc₁⟩ st kN₁ kS₁) (a.tree ⟨o, x, adv, advBase, re₀, oc₀⟩ st kN₀ kS₀)
+    | .nil, st, _, _, _, _, hN, _ => by simp only [Branches.tree]; exact hN st
+    | .cons .else_ body rest, st, kN₀, kS₀, kN₁, kS₁, hN, hS => by
+        simp only [Branches.tree]
+        exact Acts.tree_mono o x adv advBase re₀ re₁ oc₀ oc₁ hre hoc body st kN₀ kS₀ kN₁ kS₁ hN hS
+    | .cons (.const true) body rest, st, kN₀, kS₀, kN₁, kS₁, hN, hS => by
+        simp only [Branches.tree]
+        exact Acts.tree_mono o x adv advBase re₀ re₁ oc₀ oc₁ hre hoc body st kN₀ kS₀ kN₁ kS₁ hN hS
+    | .cons (.const false) body rest, st, kN₀, kS₀, kN₁, kS₁, hN, hS => by
+        simp only [Branches.tree]
+        exact Branches.tree_mono o x adv advBase re₀ re₁ oc₀ oc₁ hre hoc rest st kN₀ kS₀ kN₁ kS₁ hN hS
+    | .cons (.expr e) body rest, st, kN₀, kS₀, kN₁, kS₁, hN, hS => by
+        simp only [Branches.tree]
+        exact Mono.ask _
+          (Acts.tree_mono o x adv advBase re₀ re₁ oc₀ oc₁ hre hoc body st kN₀ kS₀ kN₁ kS₁ hN hS)
+          (Branches.tree_mono o x adv advBase re₀ re₁ oc₀ oc₁ hre hoc rest st kN₀ kS₀ kN₁ kS₁ hN hS)
+end
+
+theorem armTree_mono (M : Machine) (o : SemOpts) (si : Int) (src : St) (a : Arm) (x adv : Nat)
+    (re₀ re₁ : Int → Nat → CTree) (hre : ∀ h n, Mono (re₁ h n) (re₀ h n)) :
+    Mono (M.armTree o si src a x adv re₁) (M.armTree o si src a x adv re₀) := by
+  simp only [Machine.armTree]
+  apply Acts.tree_mono o x _ adv re₀ re₁ _ _ hre
+  · intro h
+    split
+    · exact Mono.refl _
+    · exact hre h _
+  · intro st
+    split
+    · split
+      · exact hre st _
+      · exact Mono.refl _
+    · exact Mono.refl _
+  · intro st
+    split
+    · exact Mono.refl _
+    · split
+      · split
+        · exact hre st _
+        · exact Mono.refl _
+      · exact Mono.refl _
+
+theorem chain_mono (M : Machine) (o : SemOpts) (s : Int) (x adv : Nat) (st : St)
+    (re₀ re₁ : Int → Nat → CTree) (hre : ∀ h n, Mono (re₁ h n) (re₀ h n)) (arms : List Arm) :
+    Mono (Machine.dispatch.chain M o s x adv st re₁ arms) (Machine.dispatch.chain M o s x adv st re₀ arms) := by
+  induction arms with
+  | nil => simp only [Machine.dispatch.chain]; exact Mono.refl _
+  | cons a r ih =>
+    have hat := armTree_mono M o s st a x adv re₀ re₁ hre
+    simp only [Machine.dispatch.chain]
+    split
+    · exact hat
+    · exact hat
+    · exact ih
+    · exact Mono.ask _ hat ih
+
+/-- **One more move in the budget changes nothing** unless the budget had run out. -/
+theorem dispatch_mono (M : Machine) (o : SemOpts) :
+    ∀ (fuel : Nat) (s : Int) (x adv : Nat), Mono (M.dispatch o (fuel + 1) s x adv) (M.dispatch o fuel s x adv) := by
+  intro fuel
+  induction fuel with
+  | zero => intro s x adv hn; simp [Machine.dispatch, NoSpin] at hn
+  | succ fuel ih =>
+    intro s x adv
+    have hre : ∀ h n, Mono ((fun s' adv' => M.dispatch o (fuel + 1) s' x adv') h n)
+        ((fun s' adv' => M.dispatch o fuel s' x adv') h n) := fun h n => ih h x n
+    rw [Machine.dispatch]
+    conv => rhs; rw [Machine.dispatch]
+    split
+    · exact Mono.refl _
+    · simp only
+      split
+      · exact Mono.refl _
+      · exact chain_mono M o s x adv _ _ _ hre _
+      · split
+        · split
+          · exact Mono.refl _
+          · exact armTree_mono M o s _ _ x adv _ _ hre
+        · exact Mono.refl _
+
+theorem dispatch_mono_le (M : Machine) (o : SemOpts) (f : Nat) (s : Int) (x adv : Nat)
+    (h : NoSpin (M.dispatch o f s x adv)) : ∀ k, M.dispatch o (f + k) s x adv = M.dispatch o f s x adv := by
+  intro k
+  induction k with
+  | zero => rfl
+  | succ k ih =>
+    have := dispatch_mono M o (f + k) s x adv (by rw [ih]; exact h)
+    rw [show f + (k + 1) = (f + k) + 1 by omega, this, ih]
+
+theorem removeStates_size_le (M : Machine) (keep : Array Bool) : (M.removeStates keep).states.size ≤ M.states.size := by
+  simp only [Machine.removeStates, List.size_toArray, List.length_map]
+  calc _ ≤ (List.range M.states.size).length := List.length_filter_le _ _
+    _ = M.states.size := List.length_range
+
+/-- **The removal theorem at the level of one `feed` / `end()` dispatch with each machine's own budget**: if the
+    smaller machine's call does not run out of its (smaller) budget — `noSpinCheck`, C04 — it is the original machine's
+    call with successor states renumbered. -/
+theorem C05_remove_states_call (M : Machine) (keep : Array Bool) (hC : M.closedUnder keep = true)
+    (o : SemOpts) (s : Int) (x : Nat) (hs : goodB M keep s = true)
+    (hn : NoSpin ((M.removeStates keep).call o (renT (renumber keep M.states.size) s) x)) :
+    Sim (renT (renumber keep M.states.size))
+      ((M.removeStates keep).call o (renT (renumber keep M.states.size) s) x) (M.call o s x) := by
+  have hle := removeStates_size_le M keep
+  have hsim := C05_remove_states_preserves M keep hC o M.stepFuel s x 0 hs
+  simp only [Machine.call] at hn ⊢
+  have hk : M.stepFuel = (M.removeStates keep).stepFuel + (M.stepFuel - (M.removeStates keep).stepFuel) := by
+    simp only [Machine.stepFuel]; omega
+  have h1 := dispatch_mono_le (M.removeStates keep) o (M.removeStates keep).stepFuel _ x 0 hn
+    (M.stepFuel - (M.removeStates keep).stepFuel)
+  rw [← hk] at h1
+  rw [h1] at hsim
+  exact hsim
+
 /-! ### the hypothesis is satisfiable and the theorem is not about the identity -/
 
 /-- three states, the middle one referred to by nobody: `0 -a-> 2`, `1 -b-> 0` (unreachable), `2` accepting -/
